@@ -591,7 +591,9 @@ EvGuards(e) ==
             \* of rest), or the push dispatcher - not a consumer that went away long ago (its wake-up
             \* belongs to the consumers that still wait: C06; and its deliveries are leased to nobody)
             (IF SiKnown(e) /\ e.out # <<>>
-             THEN { G("C06,C16",
+             \* (if the push registry lists the name although this subscription has no push endpoint, it is
+             \* the push dispatcher that pulls it: "subscriptions without a push endpoint are never POSTed to", C14)
+             THEN { G(IF S[e.si].name \in DOMAIN reg THEN "C14" ELSE "C06,C16",
                       LET nm == S[e.si].name
                           lastq == IF "lastq" \in DOMAIN hdr THEN hdr.lastq ELSE 0 IN
                       \/ \E c \in DOMAIN pend : pend[c].e.op \in {"Pull", "StreamOpen"} /\ pend[c].e.sub = nm
@@ -684,7 +686,11 @@ EvGuards(e) ==
             \* for a live subscription (C16 too when a request was abandoned earlier)
             { G(IF gone # {} THEN "C01,C16" ELSE "C01", \A si \in DOMAIN S : S[si].st = "live" => S[si].inbox = <<>>),
               \* ... and the push registry lists exactly the live subscriptions with a push endpoint
-              G(IF gone # {} THEN "C14,C16" ELSE "C14", C14_RegistryExact) } \cup
+              G(IF gone # {} THEN "C14,C16" ELSE "C14", C14_RegistryExact),
+              \* ... and every subscription that exists is attached to its (live) topic, the topic-side
+              \* lists contain exactly the live subscriptions
+              G("C16", C16_Attached),
+              G(IF gone # {} THEN "C11,C16" ELSE "C11", C11_AttachedExact) } \cup
             { G("C07", \A c \in DOMAIN pend : StreamAlive(c) => CtrlPartDone(c, TRUE)),
               G("C03,C05,C07", \A c \in DOMAIN pend : StreamAlive(c) => CtrlPartDone(c, FALSE)) }
       [] e.k = "hang" ->
@@ -912,8 +918,14 @@ TraceNext ==
        ELSE IF skip
        THEN \* the rest of a rejected history is not judged - except for what needs no state to be
             \* judged: a call that never returned, a process in which nothing moved any more, a panic
+            \* (a consumer that hangs on a subscription whose deletion had begun when the history was
+            \* rejected was not released by that deletion: C12 as well)
             /\ (e.k \in {"hang", "stall"} =>
-                   PrintT(<<"VIOL", ToJson([run |-> hdr.run, i |-> e.i, k |-> e.k, line |-> l, props |-> {"C07"}])>>))
+                   PrintT(<<"VIOL", ToJson([run |-> hdr.run, i |-> e.i, k |-> e.k, line |-> l,
+                                            props |-> IF /\ e.k = "hang" /\ e.c \in DOMAIN pend
+                                                         /\ pend[e.c].e.op \in {"Pull", "StreamOpen"}
+                                                         /\ \E si \in DOMAIN S : S[si].name = pend[e.c].e.sub /\ S[si].st # "live"
+                                                      THEN {"C07", "C12"} ELSE {"C07"}])>>))
             /\ (e.k \in {"panic", "abort"} =>
                    PrintT(<<"VIOL", ToJson([run |-> hdr.run, i |-> e.i, k |-> e.k, line |-> l, props |-> {"C17"}])>>))
             /\ UNCHANGED <<coreVars, skip, hdr, pend, tok, content, ptime, gone, httpLast, delT, obsDel, wire, lightNb, lightNl, stats>>
